@@ -142,8 +142,14 @@ func c05otherU64(r *Rand, old uint64, mod uint64) uint64 {
 		switch r.Intn(5) {
 		case 0:
 			v = old + 1
-		case 1:
-			v = old ^ (1 << uint(r.Intn(64)))
+		case 1: // one flipped bit, inside the field's width
+			bits := 64
+			if mod == 256 {
+				bits = 8
+			} else if mod == 65536 {
+				bits = 16
+			}
+			v = old ^ (1 << uint(r.Intn(bits)))
 		case 2:
 			v = old - 1
 		case 3:
